@@ -34,16 +34,15 @@ def cat (l : List Tbl) : Run := l.flatMap (·.run)
 
 /--
 What reads rely on:
-* no empty table (`WriteRun` writes none, a flushed memtable holds at least the entry that filled it);
-* level-0 tables are sorted runs;
-* every deeper level, read in stored order, is one sorted run: tables sorted and non-overlapping;
+* every table is a sorted run;
+* every deeper level is stored in key order and its tables do not overlap (the last key of a table is below the
+  first key of every later table);
 * newer above: of two tables holding the same key the one visited first by a lookup (`readOrder`) holds the
   larger sequence number.
 -/
 structure LayoutValid (L : Levels) : Prop where
-  nonempty : ∀ t ∈ L.flatten, t.run ≠ []
-  sortedL0 : ∀ t ∈ L.headD [], SortedRun t.run
-  sortedLvl : ∀ l ∈ L.tail, SortedRun (cat l)
+  sorted : ∀ t ∈ L.flatten, SortedRun t.run
+  ordered : ∀ l ∈ L.tail, l.Pairwise (fun a b => Bytes.lt a.endKey b.startKey = true)
   newer : (readOrder L).Pairwise (fun a b => Newer a.run b.run)
 
 instance (r : Run) : Decidable (SortedRun r) := by unfold SortedRun; infer_instance
@@ -51,9 +50,10 @@ instance (a b : Run) : Decidable (Newer a b) := by unfold Newer; infer_instance
 instance (a b : Run) : Decidable (DisjointKeys a b) := by unfold DisjointKeys; infer_instance
 
 theorem layoutValid_iff (L : Levels) : LayoutValid L ↔
-    ((∀ t ∈ L.flatten, t.run ≠ []) ∧ (∀ t ∈ L.headD [], SortedRun t.run) ∧ (∀ l ∈ L.tail, SortedRun (cat l)) ∧
-      (readOrder L).Pairwise (fun a b => Newer a.run b.run)) :=
-  ⟨fun h => ⟨h.nonempty, h.sortedL0, h.sortedLvl, h.newer⟩, fun h => ⟨h.1, h.2.1, h.2.2.1, h.2.2.2⟩⟩
+    ((∀ t ∈ L.flatten, SortedRun t.run) ∧
+     (∀ l ∈ L.tail, l.Pairwise (fun a b => Bytes.lt a.endKey b.startKey = true)) ∧
+     (readOrder L).Pairwise (fun a b => Newer a.run b.run)) :=
+  ⟨fun h => ⟨h.sorted, h.ordered, h.newer⟩, fun h => ⟨h.1, h.2.1, h.2.2⟩⟩
 
 instance (L : Levels) : Decidable (LayoutValid L) := decidable_of_iff _ (layoutValid_iff L).symm
 
@@ -87,7 +87,7 @@ The safe family. With `rm` the removed ids, `lvl` the target level and `add` the
 * **no table that stays lies beneath a removed table sharing a key with it** (within the levels above the target,
   in the order lookups visit tables);
 * the new tables are the merge (newest version per key, delete markers kept) of the removed tables cut into
-  non-empty pieces.
+  non-empty pieces (one empty piece when the merge is empty).
 -/
 structure SafeCS (L : Levels) (rm : List Nat) (lvl : Nat) (add : List Run) : Prop where
   lvl_pos : 1 ≤ lvl
@@ -97,13 +97,13 @@ structure SafeCS (L : Levels) (rm : List Nat) (lvl : Nat) (add : List Run) : Pro
   no_kept_below_removed :
     (readOrder (L.take lvl)).Pairwise (fun x y => rmP rm x = true → rmP rm y = false → DisjointKeys x.run y.run)
   added : add.flatten = mergeAll (((readOrder L).filter (rmP rm)).map (·.run))
-  chunks : ∀ r ∈ add, r ≠ []
+  chunks : (∀ r ∈ add, r ≠ []) ∨ add = [[]]
 
 theorem safeCS_iff (L : Levels) (rm : List Nat) (lvl : Nat) (add : List Run) : SafeCS L rm lvl add ↔
     (1 ≤ lvl ∧ lvl < L.length ∧ (∀ t ∈ L.getD lvl [], rmP rm t = true) ∧
      (∀ t ∈ (L.drop (lvl + 1)).flatten, rmP rm t = false) ∧
      (readOrder (L.take lvl)).Pairwise (fun x y => rmP rm x = true → rmP rm y = false → DisjointKeys x.run y.run) ∧
-     add.flatten = mergeAll (((readOrder L).filter (rmP rm)).map (·.run)) ∧ (∀ r ∈ add, r ≠ [])) :=
+     add.flatten = mergeAll (((readOrder L).filter (rmP rm)).map (·.run)) ∧ ((∀ r ∈ add, r ≠ []) ∨ add = [[]])) :=
   ⟨fun h => ⟨h.lvl_pos, h.lvl_lt, h.target_all, h.below_none, h.no_kept_below_removed, h.added, h.chunks⟩,
    fun h => ⟨h.1, h.2.1, h.2.2.1, h.2.2.2.1, h.2.2.2.2.1, h.2.2.2.2.2.1, h.2.2.2.2.2.2⟩⟩
 
